@@ -9,6 +9,7 @@ import (
 	"go/token"
 	"go/types"
 	"math"
+	"math/big"
 	"strconv"
 	"strings"
 	"sync"
@@ -884,8 +885,26 @@ func extTimeUnixMilli(fr *frame, args []value) value {
 
 func extTimeTruncate(fr *frame, args []value) value {
 	t := args[0].(timeVal)
-	if _, ok := t.ns.(sym); ok {
-		panic(unsupported("Time.Truncate on symbolic instant"))
+	if s, ok := t.ns.(sym); ok {
+		dv, ok := args[1].(int64)
+		if !ok || dv <= 0 {
+			panic(unsupported("Time.Truncate of a symbolic instant by a symbolic duration"))
+		}
+		// Truncate rounds down to a multiple of d since the zero Time
+		// (year 1), i.e. t - ((t - zero) mod d).  zero = -62135596800 s before
+		// the epoch does not fit 64-bit nanoseconds, so the offset is reduced
+		// modulo d first: (ns + Z) mod d with Z = (62135596800e9 mod d).
+		x := fr.i.x
+		tt := x.tt
+		z := new(big.Int).Mul(big.NewInt(62135596800), big.NewInt(1000000000))
+		z.Mod(z, big.NewInt(dv))
+		d := tt.BV(64, uint64(dv))
+		// ns may be negative: normalise its remainder into [0, d)
+		r := x.bvHard("bvsrem", s.t, d)
+		r = tt.Ite(tt.BVCmp("bvslt", r, tt.BV(64, 0)), tt.BVBin("bvadd", r, d), r)
+		sum := tt.BVBin("bvadd", r, tt.BV(64, z.Uint64())) // < 2d, no overflow for d < 2^62
+		sum = tt.Ite(tt.BVCmp("bvule", d, sum), tt.BVBin("bvsub", sum, d), sum)
+		return timeVal{ns: x.lower(tt.BVBin("bvsub", s.t, sum), types.Int64)}
 	}
 	d := concInt(fr, args[1], "Truncate")
 	tt := time.Unix(0, asInt64(t.ns)).UTC().Truncate(time.Duration(d))
